@@ -144,7 +144,8 @@ def run(ctx):
                        loc=ci.module.relpath + ':%d' % ci.node.lineno)
         # rollover ordering
         ro = prog.resolve(ci, 'rollover')
-        w, paths = paths_of(prog, ro, recv=ci)
+        from rules.common import PrivInl
+        w, paths = paths_of(prog, ro, recv=ci, model=PrivInl(prog))
         n = 0
         for p in paths:
             sets = [o for o in p.ops if o.kind == 'attr_store' and txt(o.val) == 'self._buffer']
